@@ -465,7 +465,9 @@ class LayerSet(BaseObject):
             for layerName, l in layerData.get("layers", {}).items():
                 # new layer
                 if layerName not in currentLayerOrder:
-                    glyphSet = reader.getGlyphSet(layerName, validateRead=self.ufoLibReadValidate, validateWrite=self.font.ufoLibWriteValidate)
+                    # the glyph set must outlive this method: take it from the
+                    # font's reader, not from the one that is closed below.
+                    glyphSet = self.font._reader.getGlyphSet(layerName, validateRead=self.ufoLibReadValidate, validateWrite=self.font.ufoLibWriteValidate)
                     self.newLayer(layerName, glyphSet)
                 # get the layer
                 layer = self[layerName]
